@@ -204,3 +204,8 @@ def replay(ll_path, cex, entry='sx_main', args=(), opts=None):
     except (Inconclusive, MachineryError) as e:
         return None, str(e)
     return [v.to_json() for v in ex.violations], None
+
+
+def z3_version():
+    import z3
+    return z3.get_version_string()
